@@ -1773,7 +1773,8 @@ class Engine:
     def cb_point(self, ins):
         """Scheduling points = the atomic operations that pass the native gate (conc.gated): crate atomics
         and the harness's HAtomic cells. The native replay can only switch threads there."""
-        k = id(ins)
+        focus = self.cb_focus
+        k = (id(ins), focus)
         r = self._cb_cache.get(k)
         if r is None:
             r = False
@@ -1785,6 +1786,9 @@ class Engine:
                         r = '(peek)' not in fr and '(store_ungated)' not in fr and '(slots_all_empty)' not in fr
                     else:
                         r = fr.startswith('src/')
+                    if r and focus is not None:
+                        # focused run: scheduling decisions only before the steps of the named source files
+                        r = any(fr.startswith(f) for f in focus)
                     break
             self._cb_cache[k] = r
         return r
@@ -2213,6 +2217,7 @@ class Engine:
 
     max_spurious = 1
     _cb_cache = {}
+    cb_focus = None      # tuple of source-file prefixes: context switches only before gated steps of these files
     stop_on_assert = False
     log_all_atomics = False      # translator validation: log atomics on private (stack/TLS) objects too
     mark_hook = None
